@@ -188,6 +188,9 @@ fn check_case(case: &Case, cap: u64, max_bound: usize, random_after: u64, seed: 
     Ok(Verdict { stats, shared_missing_prefix: shared })
 }
 
+/// a free-running round normally takes well under a millisecond
+const STRESS_DEADLOCK_SECS: u64 = 40;
+
 /// (b) free-running threads released by a barrier (adds evidence only; PhysicalFS stacks)
 fn stress_round(case: &Case) -> Result<(), String> {
     let built = setup(case)?;
@@ -195,21 +198,33 @@ fn stress_round(case: &Case) -> Result<(), String> {
     let mut targets: Vec<String> = case.threads.iter().map(|t| path_of(t)).collect();
     targets.extend(targets.clone());
     let barrier = std::sync::Arc::new(std::sync::Barrier::new(targets.len()));
-    let outs: Vec<Outcome> = std::thread::scope(|s| {
-        let hs: Vec<_> = targets
-            .iter()
-            .map(|t| {
-                let root = built.root.clone();
-                let b = barrier.clone();
-                let t = t.clone();
-                s.spawn(move || {
-                    b.wait();
-                    exec(&root, &Op::CreateDirAll(t))
-                })
-            })
-            .collect();
-        hs.into_iter().map(|h| h.join().unwrap()).collect()
-    });
+    // detached threads reporting through a channel: callers that block each other for ever (a
+    // round normally takes well under a millisecond) are reported instead of hanging the check
+    let (tx, rx) = std::sync::mpsc::channel::<(usize, Outcome)>();
+    for (i, t) in targets.iter().enumerate() {
+        let root = built.root.clone();
+        let b = barrier.clone();
+        let t = t.clone();
+        let tx = tx.clone();
+        std::thread::spawn(move || {
+            b.wait();
+            let o = exec(&root, &Op::CreateDirAll(t));
+            let _ = tx.send((i, o));
+        });
+    }
+    drop(tx);
+    let mut slots: Vec<Option<Outcome>> = targets.iter().map(|_| None).collect();
+    let deadline = std::time::Instant::now() + Duration::from_secs(STRESS_DEADLOCK_SECS);
+    for _ in 0..targets.len() {
+        match rx.recv_timeout(deadline.saturating_duration_since(std::time::Instant::now())) {
+            Ok((i, o)) => slots[i] = Some(o),
+            Err(_) => {
+                let stuck: Vec<&String> = targets.iter().zip(&slots).filter(|(_, s)| s.is_none()).map(|(t, _)| t).collect();
+                return Err(format!("{} of {} concurrent create_dir_all callers did not return within {} s (they block each other: deadlock); still inside: {:?}", stuck.len(), targets.len(), STRESS_DEADLOCK_SECS, stuck));
+            }
+        }
+    }
+    let outs: Vec<Outcome> = slots.into_iter().map(|s| s.unwrap()).collect();
     check_after(&built.root, &targets, &outs)
 }
 
@@ -239,7 +254,7 @@ pub fn replay(v: &Value) -> CaseResult {
     }
 }
 
-const RULE: &str = "2..4 threads, each one create_dir_all on a path of depth 1..4 (one target in seven: depth 5..7) over the names {a (62%), b, c} so that prefixes of every length are shared (identical, nested, sibling, disjoint targets); optional pre-existing directories (in two cases of five also 36..118 unrelated ones, so that tables cross growth thresholds), directories in the lower overlay layer, and directories created-and-removed before the concurrent phase (overlay deletion markers); stacks Mem, altroot(Mem), overlay[Mem,Mem(,Mem)], overlay on sub-paths, altroot(overlay), altroot(altroot(Mem)), overlay with an altroot as upper layer, Phys, altroot(Phys), overlay with a Phys layer; schedules: decision at every MemoryFS lock acquisition and at PhysicalFS::create_dir, enumerated depth-first with iterative preemption bounding up to the cap (exhaustive when the tree fits), then random schedules; PLUS barrier-released truly parallel rounds (4..8 OS threads, no scheduler) on every stack, which reach contention-dependent behaviour the cooperative scheduler cannot; oracle: every call returns Ok and afterwards every requested path and each ancestor is a directory; non-trivial = >=2 threads whose targets share a non-empty prefix that does not exist beforehand, explored with >=1 preemption; evaluations = scheduled executions";
+const RULE: &str = "2..4 threads, each one create_dir_all on a path of depth 1..4 (one target in seven: depth 5..7) over the names {a (62%), b, c} so that prefixes of every length are shared (identical, nested, sibling, disjoint targets); optional pre-existing directories (in two cases of five also 36..118 unrelated ones, so that tables cross growth thresholds), directories in the lower overlay layer, and directories created-and-removed before the concurrent phase (overlay deletion markers); stacks Mem, altroot(Mem), overlay[Mem,Mem(,Mem)], overlay on sub-paths, altroot(overlay), altroot(altroot(Mem)), overlay with an altroot as upper layer, Phys, altroot(Phys), overlay with a Phys layer; schedules: decision at every MemoryFS lock acquisition and at PhysicalFS::create_dir, enumerated depth-first with iterative preemption bounding up to the cap (exhaustive when the tree fits), then random schedules; PLUS barrier-released truly parallel rounds (4..8 OS threads, no scheduler) on every stack, which reach contention-dependent behaviour the cooperative scheduler cannot; oracle: every call returns (callers of a truly parallel round that are still blocked after 40 s are a deadlock) with Ok and afterwards every requested path and each ancestor is a directory; non-trivial = >=2 threads whose targets share a non-empty prefix that does not exist beforehand, explored with >=1 preemption; evaluations = scheduled executions";
 
 pub fn run(ctx: &RunCtx) -> i32 {
     // a single case explores thousands of schedules: keep shrinking short
